@@ -9,6 +9,7 @@
 #include "corecel/sys/ActionRegistry.hh"
 #include "celeritas/MockTestBase.hh"
 #include "celeritas/SimpleTestBase.hh"
+#include "celeritas/Constants.hh"
 #include "celeritas/Quantities.hh"
 #include "celeritas/global/CoreParams.hh"
 #include "celeritas/mat/MaterialParams.hh"
@@ -29,8 +30,12 @@ struct ProblemConfig
     // 0: the fixture's own cutoffs (post-interaction cut off)
     // 1: apply_post_interaction with gamma cut 0.01 MeV, electron cut ecut
     int cutmode{0};
+    // 2: as 1 but apply_post_interaction = false
     real_type ecut{1000};
     real_type gcut{0.01};
+    real_type pcut{0.01};
+    bool with_positron{false};
+    real_type lowest{0.001};  // lowest_electron_energy (P2)
 };
 
 //! SimpleTestBase (P1): Compton-only, gammas/electrons, two boxes
@@ -70,8 +75,39 @@ class P1 : public test::SimpleTestBase
              {{MevEnergy{cfg_.ecut}, 1000 * centimeter},
               {MevEnergy{cfg_.ecut}, 1000 * centimeter}}},
         };
-        input.apply_post_interaction = true;
+        if (cfg_.with_positron)
+        {
+            input.cutoffs.insert(
+                {pdg::positron(),
+                 {{MevEnergy{cfg_.pcut}, 0.1 * millimeter},
+                  {MevEnergy{cfg_.pcut}, 100 * centimeter}}});
+        }
+        input.apply_post_interaction = (cfg_.cutmode == 1);
         return std::make_shared<CutoffParams>(std::move(input));
+    }
+    SPConstParticle build_particle() override
+    {
+        if (!cfg_.with_positron)
+            return test::SimpleTestBase::build_particle();
+        using namespace constants;
+        using namespace ::celeritas::units;
+        ParticleParams::Input defs;
+        defs.push_back({"gamma",
+                        pdg::gamma(),
+                        zero_quantity(),
+                        zero_quantity(),
+                        stable_decay_constant});
+        defs.push_back({"electron",
+                        pdg::electron(),
+                        MevMass{0.5},
+                        ElementaryCharge{-1},
+                        stable_decay_constant});
+        defs.push_back({"positron",
+                        pdg::positron(),
+                        MevMass{0.5},
+                        ElementaryCharge{1},
+                        stable_decay_constant});
+        return std::make_shared<ParticleParams>(std::move(defs));
     }
 
   private:
@@ -99,6 +135,7 @@ class P2 : public test::MockTestBase
     {
         PhysicsOptions o;
         o.secondary_stack_factor = cfg_.stack_factor;
+        o.lowest_electron_energy = units::MevEnergy{cfg_.lowest};
         return o;
     }
 
